@@ -14,10 +14,13 @@ import (
 type modSet struct {
 	arr     map[string]bool
 	cnt     map[string]bool
+	fnTypes map[string]bool // types of function values called (to resolve the fnfield:* wildcard)
 	unknown bool
 }
 
-func newModSet() *modSet { return &modSet{arr: map[string]bool{}, cnt: map[string]bool{}} }
+func newModSet() *modSet {
+	return &modSet{arr: map[string]bool{}, cnt: map[string]bool{}, fnTypes: map[string]bool{}}
+}
 
 func (m *modSet) arrays() []string {
 	var out []string
@@ -54,6 +57,12 @@ func (m *modSet) union(o *modSet) {
 	}
 	for a := range o.cnt {
 		m.cnt[a] = true
+	}
+	for a := range o.fnTypes {
+		if m.fnTypes == nil {
+			m.fnTypes = map[string]bool{}
+		}
+		m.fnTypes[a] = true
 	}
 	if o.unknown {
 		m.unknown = true
@@ -332,6 +341,10 @@ func (ex *Exec) scanCall(c *ssa.CallCommon, ms *modSet, isGo bool) {
 	}
 	if !c.IsInvoke() {
 		ms.cnt["fnfield:*"] = true
+		if ms.fnTypes == nil {
+			ms.fnTypes = map[string]bool{}
+		}
+		ms.fnTypes[types.TypeString(types.Unalias(c.Value.Type()), nil)] = true
 		for _, w := range externalWrites["fnfield:*"] {
 			ms.arr[w] = true
 		}
